@@ -725,7 +725,7 @@ impl Prop for C10 {
         "C10"
     }
     fn rule(&self) -> &'static str {
-        "(1) exhaustive breadth-first exploration of the product of the reference signature automaton (17 published signatures transcribed as data: literals, ? wildcards, begin/end anchors) with the compiled matcher stepped one byte at a time through the hook, over ALL 256 byte values per step plus the end-of-input step at every product state; product state = (position, alive signature set, matcher row | pending matches, shadowing-excuse mask); oracle: the matcher reports a protocol exactly where a signature first completes (ties accept either). (2) end-to-end through reply(): complete valid requests from every protocol generator and payloads whose leading bytes complete no signature (constructed by walking the reference automaton; plus about thirty look-alikes — other protocol versions, other letter case, other framing, responses, TLS / SOCKS / HTTP/2 openers — sent to the port where the imitated protocol usually lives), over UDP and over a handshaken TCP flow on random ports/addresses; the responder (classified by independent decoders) must be the completed signature's, or nobody (DNS fallback allowed for datagrams). (2b) over a handshaken TCP flow a complete request of one protocol followed, in later segments, by 1..3 complete requests of arbitrary other protocols: no segment of the flow is answered by a responder other than the one the stream's leading bytes selected. (2c) a Gh0st packet split after 1..4 bytes with 66 000 (quick) / 140 000 (thorough) other connections opened and validated between the two parts: the second part must still get the Gh0st answer. (3) for witness prefixes (every signature with random wildcard bytes, perturbed, extended) ALL 1- and 2-cut TCP segmentations and another port/address pair: the protocol id recorded in the control block equals the unsplit delivery's. Non-trivial = product states with a non-empty alive set / witnesses answered or rejected / prefixes that complete a signature; distinct by hash."
+        "(1) exhaustive breadth-first exploration of the product of the reference signature automaton (17 published signatures transcribed as data: literals, ? wildcards, begin/end anchors) with the compiled matcher stepped one byte at a time through the hook, over ALL 256 byte values per step plus the end-of-input step at every product state; product state = (position, alive signature set, matcher row | pending matches, shadowing-excuse mask); oracle: the matcher reports a protocol exactly where a signature first completes (ties accept either). (2) end-to-end through reply(): complete valid requests from every protocol generator and payloads whose leading bytes complete no signature (constructed by walking the reference automaton; plus about thirty look-alikes — other protocol versions, other letter case, other framing, responses, TLS / SOCKS / HTTP/2 openers — sent to the port where the imitated protocol usually lives), over UDP and over a handshaken TCP flow on random ports/addresses; the responder (classified by independent decoders) must be the completed signature's, or nobody (DNS fallback allowed for datagrams). (2b) over a handshaken TCP flow a complete request of one protocol followed, in later segments, by 1..3 complete requests of arbitrary other protocols: no segment of the flow is answered by a responder other than the one the stream's leading bytes selected. (2c) a Gh0st packet split after 1..4 bytes with 66 000 (quick) / 140 000 (thorough) other connections opened and validated between the two parts: the second part must still get the Gh0st answer. (3) for witness prefixes (every signature with random wildcard bytes, perturbed, extended) ALL 1- and 2-cut TCP segmentations and another port/address pair: the protocol id recorded in the control block equals the unsplit delivery's. Non-trivial = product states with a non-empty alive set / witnesses answered or rejected / prefixes that complete a signature; distinct by hash. Shadow traffic (vf/shadow.rs): three cases in ten process, before every frame of the case, a sibling of that frame whose result is discarded — the same frame again, or one tuple element (source / destination port, source / destination address, source MAC), one payload bit or the payload length changed; TCP conversations are shadowed whole on a sibling flow validated with its own cookie; sound by the statement of C08, cases whose own flows meet a shadow tuple are excluded and counted. e2e also holds complete requests followed by trailing bytes (end-anchored signatures); seg also holds bytes that start no signature followed by a complete signature."
     }
     fn run(&self, ctx: &mut RunCtx) {
         if ctx.worker == 0 {
